@@ -35,13 +35,13 @@ var All = []Prop{
 	{"C08", []string{"FLUSH", "DIRTY", "KEYS", "GUARD", "ITEMFLAGS", "SCAN", "BORROW"},
 		"no cached or returned value aliases bucket memory that is only valid during the storage transaction; the item cache's dirty/deleted flag protocol (Put makes live and dirty, readers skip deleted, Flush obeys the flags); both storage backends implement the same scan semantics; every flushing method flushes all caches of its receiver and persists every parameter the constructor reads; every write driver's success exits are the flush result; every mutation of a persisted field of a flagged Storable sets its dirty flag; Storable key tables agree",
 		"equality of answers across cache states and storage backends; durability of bbolt", 50},
-	{"C09", []string{"ROEFFECT", "GUARD", "LOCKORDER", "LOCKPAIR", "JOIN", "SCRAP", "ATOMIC", "BORROW", "GOCAPTURE"},
+	{"C09", []string{"ROEFFECT", "GUARD", "LOCKORDER", "LOCKPAIR", "JOIN", "SCRAP", "ATOMIC", "BORROW", "GOCAPTURE", "WITHCB"},
 		"the documents a search returns own their memory (they do not point into the storage engine's memory map, which later writes reuse and remap); a lookup-then-update of a guarded registry map stays inside one critical section; no store into shared cached state is reachable from a read-only cache callback without a mutex of the stored-to object held; every access to the guarded maps and pointers holds the guarding lock; the lock-class order graph has no cycle outside the reasoned exceptions; every lock acquired is released on every exit",
 		"that a search's results come from one committed version (snapshot / cache version skew); final-state equality with a sequential model", 120},
 	{"C10", []string{"PAIR", "KEYS", "FLUSH", "DEGREE", "ITEMFLAGS", "DOCFLOW"},
 		"every site that adds a graph edge is bounded by the degree bound (result check or a dominating guard with enough slack); a cached item deleted and re-put in one transaction stays live; graph node and stored vector are created and removed together for the same id; deleting an item removes every key a write may have created; the id allocator is persisted and its ids are paired with the points stored and deleted",
 		"dangling edges, self-loops, the degree bound and id bounds after arbitrary histories", 12},
-	{"C11", []string{"LOCKPAIR", "LOCKORDER", "SCRAP", "GUARD", "TXSTATE", "ATOMIC", "DEADSTORE"},
+	{"C11", []string{"LOCKPAIR", "LOCKORDER", "SCRAP", "GUARD", "TXSTATE", "ATOMIC", "DEADSTORE", "WITHCB"},
 		"the cache registry is looked up and published in one critical section; marking a failed cache scrapped is unconditional before its lock is released; the cache transaction is committed only after the storage transaction returned, with a flag that tests its error; every lock of the cache manager is released on every exit, the write lock handed to the transaction is registered on the same path and unlocked by Commit for every registered cache; lock classes are acquired in an acyclic order; a failed callback or commit scraps and unregisters the cache; readers never block on an existing cache",
 		"that readers observe a quiescent cache (ROEFFECT under C09); fairness", 60},
 	{"C12", []string{"LOCKORDER", "GUARD", "LIFECYCLE", "LOCKPAIR", "ATOMIC"},
@@ -53,13 +53,13 @@ var All = []Prop{
 	{"C14", []string{"TRANSFER", "BORROW"},
 		"the records collected for the other servers are copied out of the read transaction they were scanned in; recursive removal on the sender is confined to the sent shard's own directory; the record receiver counts an entry as delivered only after its Put succeeded; the source copy (file or records) is removed only on paths behind a successful transfer, matching byte/record counts and equal checksums; the receiver reports the checksum of the file on disk and resets the destination on the first chunk; start-up runs RPC serving, synchronisation, HTTP in that order",
 		"byte identity of transferred files; recovery after a kill at every chunk", 6},
-	{"C15", []string{"QUOTA"},
-		"every side effect of an insert request (shard creation, per-shard insert) is only reachable behind the point-quota test, and the collection record is only written behind the collection-quota test",
+	{"C15", []string{"QUOTA", "ROUTE", "REPLYFLAGS", "TXRMW"},
+		"every side effect of an insert request (shard creation, per-shard insert) is only reachable behind the point-quota test, and the collection record is only written behind the collection-quota test; a request that names a shard (the shard-info fan-out that feeds the quota sum, inserts) is sent to the server that RendezvousHash gives for that very shard id",
 		"contiguity, disjointness and per-shard limits of the point distribution; count identities", 3},
 	{"C16", []string{"TENANT"},
 		"every key and scan prefix on the collection records is user id + delimiter (+ collection id) of the request; shard directories are built from the collection's user id and id; handlers take the user id only from the authenticated headers",
 		"isolation as observed over HTTP for interleaved histories", 18},
-	{"C17", []string{"ROUTE", "FANOUT", "SORTED", "DEADSTORE", "GOCAPTURE"},
+	{"C17", []string{"ROUTE", "FANOUT", "SORTED", "DEADSTORE", "GOCAPTURE", "REPLYFLAGS", "TXRMW"},
 		"the failed-point bookkeeping binary-searches only a slice that was sorted as a whole; every RPC handler forwards to itself on the destination server with its own arguments, guarded by the destination test, and acts locally only on the destination; fan-outs cover the collection's complete shard list; \"not found\" is only reported when every shard answered; merged search results are cut to the client's limit",
 		"exactly-once effects, merge order and failed-point bookkeeping values", 30},
 	{"C18", []string{"VALID", "LIMITS", "ENUM", "TYPETAB", "TAGGED", "VECLEN", "HANDBUILT", "DEADSTORE"},
@@ -102,7 +102,7 @@ var Technique = map[string]string{
 	"C12": "lock-order graph SCCs, guarded-by table, nil-check typestate and dominance ordering of unregister-before-remove",
 	"C13": "loop-shared capture analysis of the goroutines that carry a destination, backward provenance slice of the hash input and comparator, who-may-store on the server list, every Dest initialiser traced to RendezvousHash over the full list",
 	"C14": "edge dominance (delete only behind verify), provenance of the reported checksum, open-flag constant analysis on the first-chunk path, call order in main, alias (borrow) analysis of the records kept beyond the scan transaction",
-	"C15": "edge dominance of the quota tests over every side-effecting call",
+	"C15": "edge dominance of the quota tests over every side-effecting call, value identity of the hashed key and the id stored in each routed request",
 	"C16": "provenance of bucket keys, scan prefixes, directory paths and handler user ids",
 	"C17": "loop-shared capture analysis of fan-out goroutines, dead-store analysis of request templates, sibling cross-check of all RPC handlers (self-route constant, guard, arguments), range-operand and length-comparison provenance of fan-out loops",
 	"C18": "dead-store (lost update) analysis of request structs copied before being bound, who-may-read of the request body, dominance of validation over cluster calls, binding-tag vs Validate comparison tables, enum/type tables, tagged-union dereference guards",
@@ -120,50 +120,53 @@ type RuleFloor struct {
 }
 
 var RuleFloors = map[string]RuleFloor{
-	"ASM":       {8, []string{"C20"}},
-	"BORROW":    {25, []string{"C04", "C08", "C09", "C14"}},
-	"DEADSTORE": {12, []string{"C01", "C02", "C04", "C11", "C13", "C17", "C18"}},
-	"GOCAPTURE": {3, []string{"C09", "C13", "C17"}},
-	"ATOMIC":    {3, []string{"C09", "C11", "C12"}},
-	"BITPACK":   {3, []string{"C20"}},
-	"DEGREE":    {3, []string{"C10"}},
-	"DIRTY":     {5, []string{"C08"}},
-	"DOCFLOW":   {9, []string{"C01", "C02"}},
-	"ENUM":      {14, []string{"C18", "C02", "C04"}},
-	"ERRS":      {100, []string{"C07"}},
-	"FANOUT":    {7, []string{"C17"}},
-	"FLUSH":     {24, []string{"C08", "C07", "C01", "C10"}},
-	"FOLD":      {8, []string{"C02"}},
-	"GUARD":     {38, []string{"C09", "C11", "C12", "C08"}},
-	"HANDBUILT": {2, []string{"C18"}},
-	"ITEMFLAGS": {6, []string{"C10", "C08", "C01"}},
-	"JOIN":      {30, []string{"C07", "C09"}},
-	"KEYS":      {30, []string{"C04", "C08", "C10", "C01", "C19"}},
-	"LAYOUT":    {9, []string{"C19"}},
-	"LIFECYCLE": {7, []string{"C12"}},
-	"LIMITS":    {90, []string{"C18"}},
-	"LOCKORDER": {25, []string{"C09", "C11", "C12"}},
-	"LOCKPAIR":  {32, []string{"C09", "C11", "C12", "C07"}},
-	"OPTABLE":   {8, []string{"C02"}},
-	"PAIR":      {5, []string{"C10", "C01"}},
-	"PURITY":    {2, []string{"C13"}},
-	"QUOTA":     {3, []string{"C15"}},
-	"ROEFFECT":  {5, []string{"C09"}},
-	"ROUTE":     {20, []string{"C13", "C17"}},
-	"SCAN":      {4, []string{"C02", "C08"}},
-	"SCRAP":     {9, []string{"C11", "C07", "C09"}},
-	"SORTABLE":  {14, []string{"C19", "C02"}},
-	"SORTED":    {1, []string{"C17"}},
-	"TAGGED":    {30, []string{"C18"}},
-	"TENANT":    {18, []string{"C16"}},
-	"TRANSFER":  {8, []string{"C14"}},
-	"TXSTATE":   {3, []string{"C07", "C11"}},
-	"TYPETAB":   {9, []string{"C18"}},
-	"VALID":     {12, []string{"C18"}},
-	"VECLEN":    {4, []string{"C18"}},
-	"COVERAGE":  {4, []string{"C20"}},
-	"RANK":      {17, []string{"C03", "C04", "C05", "C06"}},
-	"MERGE":     {10, []string{"C06"}},
-	"ORDERING":  {3, []string{"C09", "C10"}},
-	"QDIST":     {6, []string{"C04", "C08"}},
+	"ASM":        {8, []string{"C20"}},
+	"BORROW":     {25, []string{"C04", "C08", "C09", "C14"}},
+	"DEADSTORE":  {12, []string{"C01", "C02", "C04", "C11", "C13", "C17", "C18"}},
+	"GOCAPTURE":  {3, []string{"C09", "C13", "C17"}},
+	"WITHCB":     {3, []string{"C09", "C11"}},
+	"REPLYFLAGS": {3, []string{"C15", "C17"}},
+	"TXRMW":      {3, []string{"C15", "C17"}},
+	"ATOMIC":     {3, []string{"C09", "C11", "C12"}},
+	"BITPACK":    {3, []string{"C20"}},
+	"DEGREE":     {3, []string{"C10"}},
+	"DIRTY":      {5, []string{"C08"}},
+	"DOCFLOW":    {9, []string{"C01", "C02"}},
+	"ENUM":       {14, []string{"C18", "C02", "C04"}},
+	"ERRS":       {100, []string{"C07"}},
+	"FANOUT":     {7, []string{"C17"}},
+	"FLUSH":      {24, []string{"C08", "C07", "C01", "C10"}},
+	"FOLD":       {8, []string{"C02"}},
+	"GUARD":      {38, []string{"C09", "C11", "C12", "C08"}},
+	"HANDBUILT":  {2, []string{"C18"}},
+	"ITEMFLAGS":  {6, []string{"C10", "C08", "C01"}},
+	"JOIN":       {30, []string{"C07", "C09"}},
+	"KEYS":       {30, []string{"C04", "C08", "C10", "C01", "C19"}},
+	"LAYOUT":     {9, []string{"C19"}},
+	"LIFECYCLE":  {7, []string{"C12"}},
+	"LIMITS":     {90, []string{"C18"}},
+	"LOCKORDER":  {25, []string{"C09", "C11", "C12"}},
+	"LOCKPAIR":   {32, []string{"C09", "C11", "C12", "C07"}},
+	"OPTABLE":    {8, []string{"C02"}},
+	"PAIR":       {5, []string{"C10", "C01"}},
+	"PURITY":     {2, []string{"C13"}},
+	"QUOTA":      {3, []string{"C15"}},
+	"ROEFFECT":   {5, []string{"C09"}},
+	"ROUTE":      {20, []string{"C13", "C17"}},
+	"SCAN":       {4, []string{"C02", "C08"}},
+	"SCRAP":      {9, []string{"C11", "C07", "C09"}},
+	"SORTABLE":   {14, []string{"C19", "C02"}},
+	"SORTED":     {1, []string{"C17"}},
+	"TAGGED":     {30, []string{"C18"}},
+	"TENANT":     {18, []string{"C16"}},
+	"TRANSFER":   {8, []string{"C14"}},
+	"TXSTATE":    {3, []string{"C07", "C11"}},
+	"TYPETAB":    {9, []string{"C18"}},
+	"VALID":      {12, []string{"C18"}},
+	"VECLEN":     {4, []string{"C18"}},
+	"COVERAGE":   {4, []string{"C20"}},
+	"RANK":       {17, []string{"C03", "C04", "C05", "C06"}},
+	"MERGE":      {10, []string{"C06"}},
+	"ORDERING":   {3, []string{"C09", "C10"}},
+	"QDIST":      {6, []string{"C04", "C08"}},
 }
